@@ -436,9 +436,15 @@ func streamC02Proc(env *runEnv) {
 			for _, withCookie := range []bool{true, false} {
 				for _, cookieOK := range []bool{true, false} {
 					ans := [4]bool{cookieOK, true, true, true}
+					// the cookie as it travels in the packet: plain, with the terminator clients append, and with
+					// bytes after an embedded terminator (all of it is the cookie the verifier must see)
+					cookie := []string{"cookie", "cookie\x00", "cookie\x00tail", "cookie\x00\x00"}[(ext+len(cfg.bits()))%4]
+					if cookieOK {
+						cookie = []string{"cookie", "cookie\x00tail"}[ext%2]
+					}
 					items := []item{
 						{data: packet(ptHandshake, handshakeBody(1, 0, 0, ext)), ans: ans},
-						{data: packet(ptTunnelCreate, tunnelCreateBody(0, "cookie", withCookie)), ans: ans},
+						{data: packet(ptTunnelCreate, tunnelCreateBody(0, cookie, withCookie)), ans: ans},
 						{data: packet(ptTunnelAuth, tunnelAuthBody("pc")), ans: ans},
 						{data: packet(ptChannelCreate, channelCreateBody("127.0.0.1", e.pool[0].port)), ans: ans},
 						{eof: true},
